@@ -42,6 +42,9 @@ def scope_tree(obj, prefix=''):
             return
         if isinstance(node, ir.Node):
             p = path
+            if isinstance(node, ir.Interface):
+                counter['Interface'] = counter.get('Interface', 0) + 1
+                p = f'{path}/Interface:#{counter["Interface"]}'
             if isinstance(node, Scope):
                 kind = type(node).__name__
                 label = getattr(node, 'name', None) if kind == 'TypeDef' else None
@@ -264,9 +267,10 @@ def scope_chain_problems(obj, foreign=None, limit=5):
         if sc is None:
             continue          # unscoped symbols carry their own type: nothing to resolve
         if id(sc) in foreign and id(sc) not in outer:
-            problems.append(('foreign-scope', f'{v} in {unit.name} is attached to {foreign[id(sc)]} of the other copy'))
+            problems.append((f'foreign-scope:{type(v).__name__}',
+                             f'{v} ({type(v).__name__}) in {unit.name} is attached to {foreign[id(sc)]} of the other copy'))
         elif id(sc) not in own and id(sc) not in outer:
-            problems.append(('unknown-scope', f'{v} in {unit.name} is attached to a scope outside the copy '
+            problems.append((f'unknown-scope:{type(v).__name__}', f'{v} in {unit.name} is attached to a scope outside the copy '
                                               f'({type(sc).__name__} {getattr(sc, "name", "")})'))
         else:
             try:
@@ -301,8 +305,8 @@ def link_problems(obj, foreign, limit=5):
     for p, s in tree:
         for name in list(s.symbol_attrs.keys()):
             a = s.symbol_attrs.lookup(name, recursive=False)
-            if a is None:
-                continue
+            if a is None or a.imported:
+                continue          # imported symbols link to other program units: outside the cloned scope chain
             n += 1
             tgt = None
             dt = a.dtype
